@@ -2224,6 +2224,10 @@ class Interp(object):
                 hit, r = self.domain.contains(self, container, item)
                 if hit:
                     return r
+            if isinstance(container, AObj) and container.cls in self.repo.classes:
+                q, f = self.repo.find_method(container.cls, "__contains__")
+                if f is not None:
+                    return self.truth(self.call(self.getattr(container, "__contains__"), [item]), "in")
             self.unsupported("membership in %r" % (container,), node)
         if isinstance(container, str):
             if isinstance(item, Abs):
